@@ -90,6 +90,274 @@ Proof.
 Qed.
 
 (* ------------------------------------------------------------------ *)
+(* the generated encoder of a struct body (sorted fields, max test, gap filling) writes the
+   slot array of the specification *)
+Section Derive.
+
+Definition keys (l : list dfield) : list nat := map d_idx l.
+
+(* strictly increasing, all indices >= lo *)
+Fixpoint incr_from (lo : nat) (l : list dfield) : Prop :=
+  match l with
+  | [] => True
+  | x :: r => lo <= d_idx x /\ incr_from (S (d_idx x)) r
+  end.
+
+Lemma incr_weaken : forall l lo lo', lo' <= lo -> incr_from lo l -> incr_from lo' l.
+Proof. destruct l; intros lo lo' H I; cbn in *; [exact I|]. destruct I; split; [lia|assumption]. Qed.
+
+Lemma incr_lb : forall l lo k, incr_from lo l -> In k (keys l) -> lo <= k.
+Proof.
+  induction l as [|x l IH]; intros lo k I H; [contradiction|].
+  cbn in I, H. destruct I as [I1 I2]. destruct H as [<-|H]; [assumption|].
+  specialize (IH _ _ I2 H). lia.
+Qed.
+
+Lemma keys_insert : forall x l k, In k (keys (insert_d x l)) <-> k = d_idx x \/ In k (keys l).
+Proof.
+  induction l as [|y l IH]; intros k; cbn.
+  - intuition.
+  - destruct (Nat.leb (d_idx x) (d_idx y)); cbn; [intuition|]. rewrite IH. intuition.
+Qed.
+
+Lemma keys_sort : forall l k, In k (keys (sort_d l)) <-> In k (keys l).
+Proof.
+  induction l as [|x l IH]; intros k; cbn; [tauto|]. rewrite keys_insert, IH. intuition.
+Qed.
+
+Lemma incr_insert : forall x l lo, incr_from lo l -> lo <= d_idx x -> ~ In (d_idx x) (keys l) ->
+  incr_from lo (insert_d x l).
+Proof.
+  induction l as [|y l IH]; intros lo I H N; cbn.
+  - auto.
+  - cbn in I. destruct I as [I1 I2]. cbn in N.
+    destruct (Nat.leb (d_idx x) (d_idx y)) eqn:E; cbn.
+    + apply Nat.leb_le in E. split; [assumption|]. split; [|assumption].
+      assert (d_idx y <> d_idx x) by tauto. lia.
+    + apply Nat.leb_gt in E. split; [assumption|]. apply IH; [assumption|lia|tauto].
+Qed.
+
+Lemma incr_sort : forall l, NoDup (keys l) -> incr_from 0 (sort_d l).
+Proof.
+  induction l as [|x l IH]; intros H; cbn; [exact I|].
+  cbn in H. inversion H as [|? ? Hn Hd]; subst.
+  apply incr_insert; [apply IH; assumption|lia|]. rewrite keys_sort. assumption.
+Qed.
+
+Definition lookup_d (i : nat) (l : list dfield) : option dfield := find (fun x => Nat.eqb (d_idx x) i) l.
+
+Lemma lookup_insert : forall x l i, ~ In (d_idx x) (keys l) ->
+  lookup_d i (insert_d x l) = if Nat.eqb (d_idx x) i then Some x else lookup_d i l.
+Proof.
+  unfold lookup_d. induction l as [|y l IH]; intros i N; cbn [insert_d find].
+  - reflexivity.
+  - cbn [keys map In] in N. destruct (Nat.leb (d_idx x) (d_idx y)); cbn [find]; [reflexivity|].
+    rewrite IH by (unfold keys; tauto).
+    destruct (Nat.eqb (d_idx y) i) eqn:Ey; [|reflexivity].
+    destruct (Nat.eqb (d_idx x) i) eqn:Ex; [|reflexivity].
+    apply Nat.eqb_eq in Ey, Ex. exfalso. apply N. left. lia.
+Qed.
+
+Lemma lookup_sort : forall l i, NoDup (keys l) -> lookup_d i (sort_d l) = lookup_d i l.
+Proof.
+  induction l as [|x l IH]; intros i H; [reflexivity|].
+  cbn in H. inversion H as [|? ? Hn Hd]; subst.
+  change (sort_d (x :: l)) with (insert_d x (sort_d l)).
+  rewrite lookup_insert by (rewrite keys_sort; assumption). rewrite IH by assumption. reflexivity.
+Qed.
+
+Lemma lookup_none : forall l i, ~ In i (keys l) -> lookup_d i l = None.
+Proof.
+  induction l as [|x l IH]; intros i N; [reflexivity|]. cbn in *.
+  destruct (Nat.eqb (d_idx x) i) eqn:E; [apply Nat.eqb_eq in E; tauto|]. apply IH. tauto.
+Qed.
+
+(* highest index of a non-nil entry, in any order *)
+Fixpoint maxnn (l : list dfield) : option nat :=
+  match l with
+  | [] => None
+  | x :: r =>
+      let m := maxnn r in
+      if d_nil x then m else match m with Some j => Some (Nat.max (d_idx x) j) | None => Some (d_idx x) end
+  end.
+
+Lemma maxnn_insert : forall x l, maxnn (insert_d x l) = maxnn (x :: l).
+Proof.
+  induction l as [|y l IH]; [reflexivity|]. cbn [insert_d].
+  destruct (Nat.leb (d_idx x) (d_idx y)); [reflexivity|].
+  cbn [maxnn] in *. rewrite IH.
+  destruct (d_nil x), (d_nil y), (maxnn l); try reflexivity; f_equal; lia.
+Qed.
+
+Lemma maxnn_sort : forall l, maxnn (sort_d l) = maxnn l.
+Proof.
+  induction l as [|x l IH]; [reflexivity|].
+  change (sort_d (x :: l)) with (insert_d x (sort_d l)). rewrite maxnn_insert. cbn [maxnn]. rewrite IH. reflexivity.
+Qed.
+
+Lemma maxnn_in : forall l m, maxnn l = Some m -> In m (keys l).
+Proof.
+  induction l as [|x l IH]; intros m H; [discriminate|]. cbn in *.
+  destruct (d_nil x).
+  - right. apply IH. assumption.
+  - destruct (maxnn l) as [j|]; inversion H; subst.
+    + destruct (Nat.max_dec (d_idx x) j) as [E|E]; rewrite E; [left; reflexivity|right; apply IH; reflexivity].
+    + left; reflexivity.
+Qed.
+
+Lemma derive_max_incr : forall sf lo acc, incr_from lo sf -> (forall a, acc = Some a -> a < lo) ->
+  derive_max sf acc = match maxnn sf with Some m => Some m | None => acc end.
+Proof.
+  induction sf as [|x r IH]; intros lo acc I A; [reflexivity|].
+  cbn in I. destruct I as [I1 I2]. cbn [derive_max maxnn].
+  rewrite (IH (S (d_idx x))); [|assumption|].
+  - destruct (d_nil x); [reflexivity|].
+    destruct (maxnn r) as [j|] eqn:Ej; [|reflexivity].
+    pose proof (incr_lb _ _ _ I2 (maxnn_in _ _ Ej)). f_equal. lia.
+  - intros a Ha. destruct (d_nil x).
+    + specialize (A a Ha). lia.
+    + inversion Ha. lia.
+Qed.
+
+(* the emission with the start of the next gap made explicit *)
+Fixpoint emit_from (start m : nat) (sf : list dfield) : list tok :=
+  match sf with
+  | [] => []
+  | x :: r =>
+      (if Nat.leb (d_idx x) m then repeat TNull (d_idx x - start) ++ d_enc x else [])
+      ++ emit_from (S (d_idx x)) m r
+  end.
+
+Lemma derive_emit_from : forall sf first k m,
+  derive_emit first k m sf = emit_from (if first then k else S k) m sf.
+Proof.
+  induction sf as [|x r IH]; intros first k m; [reflexivity|].
+  cbn [derive_emit emit_from]. rewrite IH. cbn.
+  destruct first; [reflexivity|]. replace (d_idx x - k - 1) with (d_idx x - S k) by lia. reflexivity.
+Qed.
+
+Definition slot_d (sf : list dfield) (i : nat) : list tok :=
+  match lookup_d i sf with Some x => d_enc x | None => [TNull] end.
+
+Lemma flat_map_ext_in' : forall {X Y} (f g : X -> list Y) l, (forall x, In x l -> f x = g x) -> flat_map f l = flat_map g l.
+Proof.
+  induction l as [|x l IH]; intros H; [reflexivity|]. cbn.
+  rewrite (H x) by (left; reflexivity). f_equal. apply IH. intros; apply H; right; assumption.
+Qed.
+
+Lemma flat_map_nulls : forall (f : nat -> list tok) l, (forall i, In i l -> f i = [TNull]) ->
+  flat_map f l = repeat TNull (length l).
+Proof.
+  induction l as [|i l IH]; intros H; [reflexivity|]. cbn.
+  rewrite (H i) by (left; reflexivity). cbn. f_equal. apply IH. intros; apply H; right; assumption.
+Qed.
+
+Lemma emit_slots : forall sf start m, incr_from start sf -> (start <= m -> In m (keys sf)) ->
+  emit_from start m sf = flat_map (slot_d sf) (seq start (S m - start)).
+Proof.
+  induction sf as [|x r IH]; intros start m I H.
+  - cbn [emit_from]. destruct (le_lt_dec start m) as [L|L]; [destruct (H L)|].
+    replace (S m - start) with 0 by lia. reflexivity.
+  - cbn in I. destruct I as [I1 I2]. cbn [emit_from].
+    destruct (Nat.leb (d_idx x) m) eqn:E.
+    + apply Nat.leb_le in E.
+      replace (S m - start) with ((d_idx x - start) + S (m - d_idx x)) by lia.
+      rewrite seq_app, flat_map_app.
+      replace (start + (d_idx x - start)) with (d_idx x) by lia.
+      cbn [seq flat_map]. rewrite <- app_assoc. f_equal; [|f_equal].
+      * rewrite flat_map_nulls; [rewrite seq_length; reflexivity|].
+        intros i Hi. apply in_seq in Hi. unfold slot_d. rewrite lookup_none; [reflexivity|].
+        cbn. intros [Hx|Hr]; [lia|]. pose proof (incr_lb _ _ _ I2 Hr). lia.
+      * unfold slot_d, lookup_d. cbn. rewrite Nat.eqb_refl. reflexivity.
+      * rewrite (IH (S (d_idx x)) m I2).
+        -- replace (S m - S (d_idx x)) with (m - d_idx x) by lia.
+           apply flat_map_ext_in'. intros i Hi. apply in_seq in Hi.
+           unfold slot_d, lookup_d. cbn.
+           destruct (Nat.eqb (d_idx x) i) eqn:Ei; [apply Nat.eqb_eq in Ei; lia|reflexivity].
+        -- intros L. assert (In m (keys (x :: r))) by (apply H; lia). cbn in H0. destruct H0; [lia|assumption].
+    + apply Nat.leb_gt in E. cbn [app].
+      assert (Hs : m < start).
+      { destruct (le_lt_dec start m) as [L|L]; [|assumption].
+        pose proof (H L) as Hin. cbn in Hin. destruct Hin as [Hx|Hr]; [lia|].
+        pose proof (incr_lb _ _ _ I2 Hr). lia. }
+      rewrite (IH (S (d_idx x)) m I2) by (intros; lia).
+      replace (S m - S (d_idx x)) with 0 by lia. replace (S m - start) with 0 by lia. reflexivity.
+Qed.
+
+(* collect, read through the declaration *)
+Lemma keys_collect : forall fs encs nils, length encs = length fs -> length nils = length fs ->
+  keys (collect fs encs nils) = idxs fs.
+Proof.
+  induction fs as [|f fs IH]; intros [|e encs] [|b nils] H1 H2; cbn in *; try discriminate; try reflexivity.
+  destruct (f_idx f); cbn; [f_equal|]; apply IH; lia.
+Qed.
+
+Lemma nodup_nat_NoDup : forall l, nodup_nat l = true -> NoDup l.
+Proof.
+  induction l as [|x l IH]; intros H; [constructor|].
+  cbn in H. apply andb_true_iff in H. destruct H as [H1 H2]. apply negb_true_iff in H1.
+  constructor; [|apply IH; assumption].
+  intros Hin. assert (existsb (Nat.eqb x) l = true).
+  { apply existsb_exists. exists x. split; [assumption|apply Nat.eqb_refl]. }
+  congruence.
+Qed.
+
+Lemma maxnn_collect : forall fs encs nils, length encs = length fs -> length nils = length fs ->
+  maxnn (collect fs encs nils) = max_idx fs nils.
+Proof.
+  induction fs as [|f fs IH]; intros [|e encs] [|b nils] H1 H2; cbn in *; try discriminate; try reflexivity.
+  destruct (f_idx f); cbn; rewrite IH by lia; reflexivity.
+Qed.
+
+Lemma find_fld_from_ge : forall fs q i p f, find_fld_from q fs i = Some (p, f) -> q <= p.
+Proof.
+  induction fs as [|g fs IH]; intros q i p f H; cbn in H; [discriminate|].
+  destruct (f_idx g) as [j|].
+  - destruct (Nat.eqb j i); [inversion H; lia|]. apply IH in H. lia.
+  - apply IH in H. lia.
+Qed.
+
+Lemma lookup_collect : forall fs encs nils q i, length encs = length fs -> length nils = length fs ->
+  match lookup_d i (collect fs encs nils) with Some x => d_enc x | None => [TNull] end
+  = match find_fld_from q fs i with Some (p, _) => nth (p - q) encs [] | None => [TNull] end.
+Proof.
+  unfold lookup_d.
+  induction fs as [|f fs IH]; intros [|e encs] [|b nils] q i H1 H2; cbn [length] in H1, H2; try discriminate;
+    cbn [collect find find_fld_from]; try reflexivity.
+  destruct (f_idx f) as [j|]; cbn [find d_idx].
+  - destruct (Nat.eqb j i) eqn:E.
+    + rewrite Nat.sub_diag. reflexivity.
+    + rewrite (IH encs nils (S q) i) by lia.
+      destruct (find_fld_from (S q) fs i) as [[p g]|] eqn:Ef; [|reflexivity].
+      apply find_fld_from_ge in Ef. replace (p - q) with (S (p - S q)) by lia. reflexivity.
+  - rewrite (IH encs nils (S q) i) by lia.
+    destruct (find_fld_from (S q) fs i) as [[p g]|] eqn:Ef; [|reflexivity].
+    apply find_fld_from_ge in Ef. replace (p - q) with (S (p - S q)) by lia. reflexivity.
+Qed.
+
+Theorem enc_rec_is_spec : forall fs encs nils,
+  nodup_nat (idxs fs) = true -> length encs = length fs -> length nils = length fs ->
+  enc_rec fs encs nils = enc_rec_spec fs encs nils.
+Proof.
+  intros fs encs nils Hnd H1 H2. unfold enc_rec, enc_rec_spec.
+  set (c := collect fs encs nils).
+  assert (ND : NoDup (keys c)) by (unfold c; rewrite keys_collect by assumption; apply nodup_nat_NoDup; assumption).
+  pose proof (incr_sort c ND) as I.
+  rewrite (derive_max_incr _ 0 None I) by discriminate.
+  rewrite maxnn_sort. unfold c at 1. rewrite maxnn_collect by assumption.
+  destruct (max_idx fs nils) as [m|] eqn:Em; [|reflexivity].
+  f_equal. rewrite derive_emit_from. cbn [Nat.sub].
+  rewrite (emit_slots _ 0 m I).
+  - rewrite Nat.sub_0_r. apply flat_map_ext. intros i. unfold slot_d, enc_slot.
+    rewrite lookup_sort by assumption. unfold c, find_fld.
+    rewrite (lookup_collect fs encs nils 0 i H1 H2).
+    destruct (find_fld_from 0 fs i) as [[p g]|]; [rewrite Nat.sub_0_r|]; reflexivity.
+  - intros _. rewrite keys_sort. apply maxnn_in. unfold c. rewrite maxnn_collect by assumption. exact Em.
+Qed.
+
+End Derive.
+
+(* ------------------------------------------------------------------ *)
 Section RT.
 Variable Sc : schema.
 Hypothesis WF : wf_schema Sc = true.
@@ -107,13 +375,13 @@ Notation erases := (erases Sc).
 Notation lookup := (lookup Sc).
 
 (* --- unfolding equations --- *)
-Lemma enc_struct : forall name fs l, lookup name = Some (IStruct false fs) ->
+Lemma enc_struct_raw : forall name fs l, lookup name = Some (IStruct false fs) ->
   enc (TRef name) (VRec l) = enc_rec fs (encs fs l) (zipw isnil fs l).
 Proof. intros. cbn [Cbor.enc]. rewrite H. reflexivity. Qed.
 Lemma enc_transparent : forall name fs l, lookup name = Some (IStruct true fs) ->
   enc (TRef name) (VRec l) = match encs fs l with [e] => e | _ => [] end.
 Proof. intros. cbn [Cbor.enc]. rewrite H. reflexivity. Qed.
-Lemma enc_enum : forall name vs k l vr, lookup name = Some (IEnum vs) -> nth_error vs k = Some vr ->
+Lemma enc_enum_raw : forall name vs k l vr, lookup name = Some (IEnum vs) -> nth_error vs k = Some vr ->
   enc (TRef name) (VVar k l) =
   TArr 2 :: TUInt (N.of_nat (v_idx vr)) :: enc_rec (v_fields vr) (encs (v_fields vr) l) (no_nils l).
 Proof. intros. cbn [Cbor.enc]. rewrite H, H0. reflexivity. Qed.
@@ -300,6 +568,41 @@ Proof.
   - eapply IH; eassumption.
 Qed.
 
+Lemma encs_length : forall fs l, length fs = length l -> length (encs fs l) = length fs.
+Proof.
+  intros fs l. revert fs. induction l as [|v l IH]; intros [|f fs] H; cbn in *; try discriminate; try reflexivity.
+  f_equal. apply IH. lia.
+Qed.
+
+(* from here on the struct body is used in its specification form *)
+Lemma enc_struct : forall name fs l, lookup name = Some (IStruct false fs) -> hts fs l = true ->
+  enc (TRef name) (VRec l) = enc_rec_spec fs (encs fs l) (zipw isnil fs l).
+Proof.
+  intros name fs l El Hh. rewrite (enc_struct_raw _ _ _ El).
+  pose proof (hts_length _ _ Hh) as Hlen.
+  apply enc_rec_is_spec.
+  - pose proof (lookup_wf _ _ El) as Hw. cbn in Hw. apply fields_wf_nodup. exact Hw.
+  - apply encs_length. exact Hlen.
+  - rewrite zipw_length by exact Hlen. symmetry. exact Hlen.
+Qed.
+
+Lemma enc_enum : forall name vs k l vr, lookup name = Some (IEnum vs) -> nth_error vs k = Some vr ->
+  hts (v_fields vr) l = true ->
+  enc (TRef name) (VVar k l) =
+  TArr 2 :: TUInt (N.of_nat (v_idx vr)) :: enc_rec_spec (v_fields vr) (encs (v_fields vr) l) (no_nils l).
+Proof.
+  intros name vs k l vr El Ek Hh. rewrite (enc_enum_raw _ _ _ _ _ El Ek).
+  pose proof (hts_length _ _ Hh) as Hlen.
+  f_equal. f_equal. apply enc_rec_is_spec.
+  - pose proof (lookup_wf _ _ El) as Hw. cbn in Hw.
+    apply andb_true_iff in Hw. destruct Hw as [Hw _]. apply andb_true_iff in Hw. destruct Hw as [Hvw _].
+    rewrite forallb_forall in Hvw. pose proof (Hvw vr (nth_error_In _ _ Ek)) as Hv1.
+    unfold variant_wf in Hv1. apply andb_true_iff in Hv1. destruct Hv1 as [Hfw _].
+    apply fields_wf_nodup. exact Hfw.
+  - apply encs_length. exact Hlen.
+  - unfold no_nils. rewrite map_length. symmetry. exact Hlen.
+Qed.
+
 Lemma ht_none_opt : forall t, ht t VNone = true -> is_opt t = true.
 Proof.
   intros t H. destruct t; cbn in H; try discriminate; try reflexivity.
@@ -428,9 +731,9 @@ Proof.
 Qed.
 
 Lemma dec_rec_rt : forall rest,
-  dec_rec D fs (enc_rec fs (encs fs l) nl ++ rest) = Some (erases fs l, rest).
+  dec_rec D fs (enc_rec_spec fs (encs fs l) nl ++ rest) = Some (erases fs l, rest).
 Proof.
-  intros rest. unfold enc_rec.
+  intros rest. unfold enc_rec_spec.
   assert (Hlen : length fs = length l) by (apply hts_length; exact Hht).
   destruct (max_idx fs nl) as [m|] eqn:Em.
   - cbn [app dec_rec]. rewrite dec_slots_rt.
@@ -464,8 +767,8 @@ End Record.
 
 (* ------------------------------------------------------------------ *)
 (* the first token of an encoding under a never-null type is not null *)
-Lemma enc_rec_head : forall fs es ns rest, head_nonnull (enc_rec fs es ns ++ rest) = true.
-Proof. intros. unfold enc_rec. destruct (max_idx fs ns); reflexivity. Qed.
+Lemma enc_rec_head : forall fs es ns rest, head_nonnull (enc_rec_spec fs es ns ++ rest) = true.
+Proof. intros. unfold enc_rec_spec. destruct (max_idx fs ns); reflexivity. Qed.
 
 Lemma nn_head : forall n t v rest, nn Sc n t = true -> ht t v = true -> head_nonnull (enc t v ++ rest) = true.
 Proof.
@@ -478,10 +781,10 @@ Proof.
     + destruct (lookup name) as [[[|] fs|vs]|] eqn:El; try discriminate.
       * destruct fs as [|f [|]]; discriminate.
       * rewrite (ht_struct _ _ _ _ El) in Hht. destruct v; try discriminate.
-        rewrite (enc_struct _ _ _ El). apply enc_rec_head.
+        rewrite (enc_struct _ _ _ El Hht). apply enc_rec_head.
       * rewrite (ht_enum _ _ _ El) in Hht. destruct v; try discriminate.
         destruct (nth_error vs k) as [vr|] eqn:Ek; [|discriminate].
-        rewrite (enc_enum _ _ _ _ _ El Ek). reflexivity.
+        rewrite (enc_enum _ _ _ _ _ El Ek Hht). reflexivity.
   - destruct t; cbn [nn] in Hnn; try discriminate.
     + rewrite enc_TP. rewrite ht_TP in Hht. apply prim_head. exact Hht.
     + destruct v; cbn in Hht; try discriminate. reflexivity.
@@ -498,10 +801,10 @@ Proof.
         rewrite (enc_transparent _ _ _ El). cbn [Cbor.encs]. unfold Cbor.encf. rewrite Ek.
         apply IH; assumption.
       * rewrite (ht_struct _ _ _ _ El) in Hht. destruct v; try discriminate.
-        rewrite (enc_struct _ _ _ El). apply enc_rec_head.
+        rewrite (enc_struct _ _ _ El Hht). apply enc_rec_head.
       * rewrite (ht_enum _ _ _ El) in Hht. destruct v; try discriminate.
         destruct (nth_error vs k) as [vr|] eqn:Ek; [|discriminate].
-        rewrite (enc_enum _ _ _ _ _ El Ek). reflexivity.
+        rewrite (enc_enum _ _ _ _ _ El Ek Hht). reflexivity.
 Qed.
 
 (* --- unfolding the decoder one step --- *)
@@ -604,7 +907,7 @@ Proof.
     + (* struct *)
       pose proof (lookup_wf _ _ El) as Hw. cbn in Hw.
       rewrite (ht_struct _ _ _ _ El) in Hht. destruct v; try discriminate.
-      rewrite (enc_struct _ _ _ El), (erase_struct _ _ _ _ El). cbn [Cbor.dec]. rewrite El.
+      rewrite (enc_struct _ _ _ El Hht), (erase_struct _ _ _ _ El). cbn [Cbor.dec]. rewrite El.
       rewrite (dec_rec_rt (decf_with (dec fuel)) fs l (zipw isnil fs l)); [reflexivity| |assumption|assumption|].
       { intros p f v Hf Hv. exists (isnil f v). split; [apply nth_error_zipw; assumption|auto]. }
       intros p f v Hf Hv Hi r.
@@ -621,7 +924,7 @@ Proof.
       apply andb_true_iff in Hw. destruct Hw as [Hw Hr]. apply andb_true_iff in Hw. destruct Hw as [Hvw Hnd].
       rewrite (ht_enum _ _ _ El) in Hht. destruct v; try discriminate.
       destruct (nth_error vs k) as [vr|] eqn:Ek; [|discriminate].
-      rewrite (enc_enum _ _ _ _ _ El Ek), (erase_enum _ _ _ _ _ El Ek). cbn [Cbor.dec app]. rewrite El.
+      rewrite (enc_enum _ _ _ _ _ El Ek Hht), (erase_enum _ _ _ _ _ El Ek). cbn [Cbor.dec app]. rewrite El.
       rewrite forallb_forall in Hr. rewrite (Hr vr (nth_error_In _ _ Ek)).
       rewrite Nnat.Nat2N.id. unfold find_var. rewrite (find_var_from_unique vs 0 k vr Hnd Ek). cbn [Nat.add].
       rewrite forallb_forall in Hvw. pose proof (Hvw vr (nth_error_In _ _ Ek)) as Hv1.
@@ -629,7 +932,7 @@ Proof.
       destruct (v_unit vr) eqn:Eu.
       * destruct (v_fields vr) eqn:Ef; [|discriminate].
         destruct l; cbn in Hht; try discriminate.
-        change (enc_rec [] (encs [] []) (no_nils []) ++ rest) with (TArr 0 :: rest).
+        change (enc_rec_spec [] (encs [] []) (no_nils []) ++ rest) with (TArr 0 :: rest).
         rewrite skip1_arr0. reflexivity.
       * rewrite (dec_rec_rt (decf_with (dec fuel)) (v_fields vr) l (no_nils l)); [reflexivity| |assumption|assumption|].
         { intros p f v Hf Hv. exists false. split; [|discriminate].
@@ -681,9 +984,9 @@ Lemma enc_rec_item : forall fs l nl rest f n,
   length fs = length l ->
   (forall p fl v, nth_error fs p = Some fl -> nth_error l p = Some v ->
      forall r f' n', skip_items (length (encf fl v) + f') (S n') (encf fl v ++ r) = skip_items f' n' r) ->
-  skip_items (length (enc_rec fs (encs fs l) nl) + f) (S n) (enc_rec fs (encs fs l) nl ++ rest) = skip_items f n rest.
+  skip_items (length (enc_rec_spec fs (encs fs l) nl) + f) (S n) (enc_rec_spec fs (encs fs l) nl ++ rest) = skip_items f n rest.
 Proof.
-  intros fs l nl rest f n Hlen H. unfold enc_rec. destruct (max_idx fs nl) as [m|].
+  intros fs l nl rest f n Hlen H. unfold enc_rec_spec. destruct (max_idx fs nl) as [m|].
   - cbn [length app Nat.add skip_items].
     pose proof (skip_slots fs (encs fs l) (seq 0 (S m)) rest f n) as Hs. rewrite seq_length in Hs.
     apply Hs. intros i p fl _ Hf r f' n'. unfold find_fld in Hf. apply find_fld_from_some in Hf.
@@ -772,7 +1075,7 @@ Proof.
       * reflexivity.
     + pose proof (lookup_wf _ _ El) as Hw. cbn in Hw.
       rewrite (ht_struct _ _ _ _ El) in Hht. destruct v; try discriminate.
-      rewrite (enc_struct _ _ _ El).
+      rewrite (enc_struct _ _ _ El Hht).
       apply enc_rec_item; [apply hts_length; assumption|].
       intros p fl v Hf Hv r f' n'.
       pose proof (hts_nth _ _ _ _ _ Hht Hf Hv) as Hh. unfold Cbor.htf in Hh. unfold Cbor.encf.
@@ -794,7 +1097,7 @@ Proof.
       apply andb_true_iff in Hw. destruct Hw as [Hw Hr]. apply andb_true_iff in Hw. destruct Hw as [Hvw Hnd].
       rewrite (ht_enum _ _ _ El) in Hht. destruct v; try discriminate.
       destruct (nth_error vs k) as [vr|] eqn:Ek; [|discriminate].
-      rewrite (enc_enum _ _ _ _ _ El Ek). cbn [length app Nat.add skip_items].
+      rewrite (enc_enum _ _ _ _ _ El Ek Hht). cbn [length app Nat.add skip_items].
       rewrite forallb_forall in Hvw. pose proof (Hvw vr (nth_error_In _ _ Ek)) as Hv1.
       unfold variant_wf in Hv1. apply andb_true_iff in Hv1. destruct Hv1 as [Hfw Hu].
       apply enc_rec_item; [apply hts_length; assumption|].
